@@ -199,7 +199,12 @@ impl<C: ContentAddrStore> UnsealedState<C> {
 
     fn apply_tip_909(&mut self) {
         let divider = self.height.0.saturating_sub(TIP_909_HEIGHT.0) / 1_000_000;
-        let reward = (1u128 << 20) >> divider;
+        // after 128 halvings nothing is left of the reward; shifting by the full width of the integer would overflow
+        // (a panic with overflow checks, and the full reward again without them)
+        let reward = u32::try_from(divider)
+            .ok()
+            .and_then(|halvings| (1u128 << 20).checked_shr(halvings))
+            .unwrap_or(0);
         let tip909a_erg_subsidy = reward >> 8;
         // fee subsidy
         let fee_subsidy = if self.tip_909a() {
